@@ -238,7 +238,7 @@ class _TTGlyphGlyf(_TTGlyph):
 
         glyphSet = self.glyphSet
         glyfTable = glyphSet.glyfTable
-        variations = glyphSet.gvarTable.variations[self.name]
+        variations = glyphSet.gvarTable.variations.get(self.name, [])
         hMetrics = glyphSet.hMetrics
         vMetrics = glyphSet.vMetrics
         coordinates, _ = glyfTable._getCoordinatesAndControls(
